@@ -200,6 +200,57 @@ def rule_routes(chk, prog, tier):
     r.exhaustive = True
 
 
+# ------------------------------------------------------------------ C20.g unsequenced emitters
+
+SEQ_ROOTS = {'funcinst', 'mkinst', 'mkblock', 'functemp', 'mkglobal', 'printf', 'fputs', 'puts', 'putchar', 'fputc', 'fwrite', 'putc', 'next', 'nextinto', 'scan', 'nextchar'}
+
+
+def order_sensitive(prog):
+    """functions that (transitively) emit instructions / allocate printed ids / write output / advance the token stream:
+    the order in which two of them run is visible in the output"""
+    callees = {}
+    for fn in prog.all_funcs():
+        callees[fn['name']] = {callee_name(c) for c in walk(fn) if c.get('kind') == 'CallExpr'} - {None}
+    sens = set(n for n in SEQ_ROOTS)
+    # diagnostics end the run: which of two failing sub-expressions reports first is not part of the output contract
+    TERMINAL = {'error', 'fatal', 'usage', 'die'}
+    changed = True
+    while changed:
+        changed = False
+        for f, cs in callees.items():
+            if f in TERMINAL: continue
+            if f not in sens and cs & sens:
+                sens.add(f); changed = True
+    return sens
+
+
+def rule_unsequenced(chk, prog, tier, rid='C20.g'):
+    r = chk.rule(rid, 'no full expression contains two unsequenced sub-expressions (arguments of one call, operands of one non-sequencing operator) that both run code whose order shows in the output (instruction emission, id allocation, output, token consumption): the result must not depend on the host compiler\'s evaluation order',
+                 floor=2000, oracle='C11 6.5p2-3, 6.5.2.2p10 (order of evaluation of arguments is unspecified)')
+    sens = order_sensitive(prog)
+    if 'funcexpr' not in sens or 'funclval' not in sens or 'expr' not in sens:
+        raise AnalysisBroken('order-sensitive closure lost its witnesses (funcexpr/funclval/expr)')
+    def sensitive_calls(n):
+        return sorted({callee_name(c) for c in walk(n) if c.get('kind') == 'CallExpr' and callee_name(c) in sens})
+    SEQ_OPS = {'&&', '||', ','}
+    for fn in prog.all_funcs():
+        for n in walk(fn):
+            k = n.get('kind')
+            parts = None
+            if k == 'CallExpr':
+                parts = children(n)          # callee expression and arguments are mutually unsequenced
+                what = 'arguments of the call to %s' % (callee_name(n) or '(indirect)')
+            elif k in ('BinaryOperator', 'CompoundAssignOperator') and n.get('opcode') not in SEQ_OPS:
+                parts = children(n)
+                what = 'operands of `%s`' % n.get('opcode')
+            if parts is None: continue
+            hot = [sensitive_calls(p) for p in parts]
+            nhot = [h for h in hot if h]
+            r.instance(len(nhot) < 2, 'unsequenced:%s:%s:%s' % (fn['name'], what, '|'.join(','.join(h) for h in nhot)) if len(nhot) >= 2 else 'seq:%s:%s:%s' % (fn['name'], n.get('line'), n.get('col')),
+                       '%s:%s' % (fn['_file'], n.get('line')), 'the %s call %s in unspecified order; each of them emits code / consumes tokens / allocates ids, so the output depends on the compiler that built cproc' % (what, ' and '.join('/'.join(h) for h in nhot)))
+    r.exhaustive = True
+
+
 def run(chk, tier):
     prog = facts.programs()['cproc-qbe']
     chk.guard('C20.a', lambda: rule_apis(chk, prog, tier))
@@ -208,3 +259,4 @@ def run(chk, tier):
     chk.guard('C20.d', lambda: rule_numbering(chk, prog, tier))
     chk.guard('C20.e', lambda: rule_constructors(chk, prog, tier))
     chk.guard('C20.f', lambda: rule_routes(chk, prog, tier))
+    chk.guard('C20.g', lambda: rule_unsequenced(chk, prog, tier))
